@@ -561,6 +561,8 @@ var pureLib = map[string]bool{
 	"errors.New": true, "errors.Is": true, "errors.As": true, "errors.Unwrap": true,
 	"time.Parse": true, "(time.Time).Unix": true, "time.Now": true,
 	"reflect.TypeOf":            true,
+	"reflect.ValueOf": true, "(reflect.Value).Kind": true, "(reflect.Value).IsNil": true, "(reflect.Value).Elem": true,
+	"(reflect.Value).Len": true, "(reflect.Value).Index": true, "(reflect.Value).NumField": true, "(reflect.Value).Field": true,
 	"(*strings.Builder).String": true, "(*strings.Builder).Len": true,
 	"math.Max": true, "math.Min": true,
 	"sort.SearchInts": true,
